@@ -4,6 +4,7 @@ import Genshi.Model.SubstEmit
 import Genshi.Model.SubstRead
 import Genshi.Model.SubstDomain
 import Genshi.Model.SubstFmt
+import Genshi.Model.SubstRaw
 namespace Driver.C01
 open Genshi Genshi.Subst Genshi.Sexp
 
@@ -161,6 +162,22 @@ def handle : List Sexp → Option Sexp
       if (if strip then nodesOkW m nodes else nodesOkM m nodes) && listOk [] nodes then
         let evs := expectedList [] nodes
         pure (.list ((if strip then coalesceStrip m evs else coalesce evs).map evOut))
+      else pure (.atom "outside")
+  -- the specification for templates WITH raw-text elements (`structure_preserved_rawtext_partial`): what
+  -- re-reading must give, raw-text elements holding the emitted strings; `outside` its hypotheses
+  | [.atom "expectr", m, .list nodes] => do
+      let m ← method? m
+      let nodes ← nodes.mapM node?
+      if nodesOkR m [] nodes && listOk [] nodes then
+        pure (.list ((coalesceR m (expectedListR m [] nodes)).map evOut))
+      else pure (.atom "outside")
+  -- `reread_rawtext_nostrip` on a given (the real) event stream: inside its hypotheses?  what must re-reading
+  -- give, and the raw-text contents
+  | [.atom "rawreread", m, .list evs] => do
+      let m ← method? m
+      let evs ← evs.mapM ev?
+      if rawOkGo m none evs && emptyOkGo m none evs then
+        pure (.list [.list ((coalesceR m evs).map evOut), .list ((rawSegs m evs).map Sexp.str)])
       else pure (.atom "outside")
   -- `Markup(fmt) % operands` from the author's pieces: the format string, the operator's result,
   -- and what `markup_format_site` says re-reading it gives
